@@ -134,7 +134,10 @@ def gen_crossing(rng, tier, widen):
     spread = 12.0 if not widen else 0.02
     pin = [round(centre + (ml[0] if use_imp else 0) + rng.uniform(-spread, spread), 3) for _ in range(nch)]
     offs = [rng.choice([0.0, 0.0, 1.0, -3.0, 3.0, round(rng.uniform(-4, 4), 2)]) for _ in range(nch)]
-    return {'kind': 'crossing', 'node': node, 'per': per, 'degree': degree, 'from': 'tx', 'freq': freqs,
+    order = list(range(nch))
+    if rng.random() < 0.5:
+        rng.shuffle(order)
+    return {'kind': 'crossing', 'order': order, 'node': node, 'per': per, 'degree': degree, 'from': 'tx', 'freq': freqs,
             'baud': bauds, 'slot': slots, 'pin_dbm': pin, 'offset': offs, 'ranges': ranges if use_imp else None,
             'ref_in': round(rng.uniform(-30, 5), 2), 'ref_baud': rng.choice([32e9, 64e9]),
             'ref_slot': rng.choice([50e9, 75e9])}
@@ -374,9 +377,19 @@ def _one_crossing(case, drv, res, r, freq, baud, slot, pin_dbm, offset, tag):
     from gnpy.core.info import create_arbitrary_spectral_information
     from gnpy.core.utils import dbm2watt, watt2dbm
     pin_w = [float(dbm2watt(x)) for x in pin_dbm]
-    si = create_arbitrary_spectral_information(freq, pch=pin_w, baud_rate=baud, tx_osnr=40.0,
-                                               tx_power=pin_w, delta_pdb_per_channel=offset,
-                                               slot_width=slot, label='x')
+    # the carriers are handed to the constructor in a case-defined order (it must sort every per-channel array alike);
+    # everything below is indexed by frequency order, which is the order of freq/baud/slot/pin_dbm/offset
+    order = case.get('order')
+    if not order or sorted(order) != list(range(len(freq))):
+        order = list(range(len(freq)))
+
+    def perm(xs):
+        return [xs[i] for i in order]
+    si = create_arbitrary_spectral_information(perm(freq), pch=perm(pin_w), baud_rate=perm(baud), tx_osnr=40.0,
+                                               tx_power=perm(pin_w), delta_pdb_per_channel=perm(offset),
+                                               slot_width=perm(slot), label='x')
+    if [float(x) for x in si.frequency] != [float(x) for x in freq]:
+        res.fail(f'constructor{tag}: carriers not in frequency order after construction')
     ratios_before = (si._signal_ratio.copy(), si._ase_ratio.copy(), si._nli_ratio.copy())
     pin_arr = si.pch.copy()
     # per-carrier path loss: implementation vs model lookup (first matching range) vs own lookup
@@ -598,6 +611,8 @@ def shrink_candidates(case):
                 c = copy.deepcopy(case)
                 for k in ('freq', 'baud', 'slot', 'pin_dbm', 'offset'):
                     del c[k][i]
+                if c.get('order'):
+                    c['order'] = [j - (j > i) for j in c['order'] if j != i]
                 yield c
         if case['ranges']:
             c = copy.deepcopy(case)
